@@ -137,17 +137,22 @@ Theorem C14_idempotent_drop : forall dc db,
   drop_table_op dc true (fst (drop_table_op dc true db)) = (fst (drop_table_op dc true db), false).
 Proof. exact drop_idem. Qed.
 
-(* ANY sequence of addColumn/delColumn(changeSchema=True) -- ops the engine refuses included --
-   from a state where class and table are in step: class columns = table columns afterwards and
-   every column that stays throughout keeps its cells; no statement fails if the engine accepts
-   every addColumn whatever the table holds and every delColumn names a column of the class (ops_ok) *)
-Theorem C14_evolution_inv : forall ops s t, evo_wf s -> the_table s = Some t ->
+(* ANY sequence of addColumn/delColumn(changeSchema=True) -- steps the engine refuses and steps the
+   class refuses (a name that collides with `id`, a column, a method, an index; an unknown column)
+   included, the latter also with changeSchema=False (ops_in_scope) -- from a state where class and
+   table are in step: class columns = table columns afterwards and every column that stays
+   throughout keeps its cells; no step fails if the engine accepts every addColumn whatever the
+   table holds, no name collides and every delColumn names a column of the class (ops_ok) *)
+Theorem C14_evolution_inv : forall ops s t, evo_wf s -> the_table s = Some t -> ops_in_scope s ops = true ->
   evo_wf (fst (evo_run s ops))
   /\ (ops_ok s ops = true -> snd (evo_run s ops) = false)
   /\ exists t', the_table (fst (evo_run s ops)) = Some t'
        /\ t_cols t' = class_cols (e_decl (fst (evo_run s ops)))
        /\ forall x, In x (t_cols t) -> kept x s ops -> cells_kept t t' x.
 Proof. exact evo_run_ok. Qed.
+(* a step the class refuses changes nothing at all -- neither class nor database *)
+Theorem C14_evolution_refused : forall s op, op_refused (e_decl s) op = true -> evo_step s op = (s, true).
+Proof. exact refused_unchanged. Qed.
 (* full strength would add: the declared indexes are still there.  Still open: *)
 (* and the declared indexes do not survive delColumn on sqlite *)
 Theorem C14_evolution_index_refuted :
@@ -234,6 +239,14 @@ Example C14_evolution_nonvacuous :
   evo_wf w_evo_state /\ ops_ok w_evo_state [EAdd (mkcol "c" (KInt IInt None false false) false None false None); EDel (s2l "b")] = true
   /\ kept (s2l "a") w_evo_state [EAdd (mkcol "c" (KInt IInt None false false) false None false None); EDel (s2l "b")].
 Proof. split; [exact w_evo_wf|]. split; [vm_compute; reflexivity|]. vm_compute. repeat split; auto. Qed.
+Example C14_evolution_refused_nonvacuous :
+  let ops := [EAdd (mkcol "expire" (KInt IInt None false false) false None false None);
+              EAdd (mkcol "ix" (KInt IInt None false false) false None false None);
+              EAddNoSchema (mkcol "a" (KInt IInt None false false) false None false None);
+              EDelNoSchema (s2l "zzz"); EDel (s2l "nope")] in
+  ops_in_scope w_evo_state ops = true /\ forallb (op_refused w_evo) ops = true
+  /\ evo_run w_evo_state ops = (w_evo_state, true).
+Proof. repeat split; vm_compute; reflexivity. Qed.
 Example C14_idempotent_example :
   snd (create_table_op w_evo true empty_db) = false
   /\ map t_name (db_tables (fst (create_table_op w_evo true empty_db))) = [s2l "vc_evo"]
@@ -276,6 +289,7 @@ Print Assumptions C14_idempotent_create.
 Print Assumptions C14_idempotent_create_state.
 Print Assumptions C14_idempotent_drop.
 Print Assumptions C14_evolution_inv.
+Print Assumptions C14_evolution_refused.
 Print Assumptions C14_evolution_index_refuted.
 Print Assumptions C14_enum_literal.
 Print Assumptions C14_gen_tables.
